@@ -73,6 +73,17 @@ def http_vectors(rng: random.Random, tier_: str) -> list[dict[str, Any]]:
             if tmpl in TIMELINE_TEMPLATES and 'timeline' not in q and rng.random() < 0.5:
                 q += '&timeline=1'
             add(tmpl, q, day + sec(rng.choice([3600.0, 7207.9, 40000.0, 86399.999999, 43210.000001])))
+    # field-width boundaries: instants at which the decode time of a track (elapsed x timescale) crosses 2^31, 2^32
+    # and 2^33 ticks - where a 32-bit tfdt has to become a 64-bit one.  bbb: video 240, audio 44100, text 1000 Hz.
+    wast = dt('2023-01-01T00:00:00Z')
+    for ts in (240, 44100, 1000):
+        for bits in (31, 32, 33):
+            edge = (1 << bits) / ts
+            deltas = [-12.0, 3.0, 47.5]
+            for dl in (deltas if tier_ == 'thorough' else [rng.choice(deltas[:2]), deltas[2]]):
+                tl = rng.choice([0, 1])
+                add('hand_made.mpd', f'start={wast.strftime("%Y-%m-%dT%H:%M:%SZ")}&depth=30' + ('&timeline=1' if tl else ''),
+                    wast + sec(int(edge) + dl))
     # the default window (30 minutes): partial walk (oldest, newest and a sample in between)
     add('hand_made.mpd', '', day + sec(50000.5))
     add('hand_made.mpd', 'timeline=1', day + sec(50003.999999))
